@@ -519,6 +519,7 @@ def run(m, tier):
     results.append(r9)
     from rules import order_rules, format_rules
     results.append(order_rules.index_guard_rule(m, "C06.R7"))
+    results.append(order_rules.nullable_deref_rule(m, "C06.R10", [ctx.engine]))
     results.append(format_rules.format_arity_rule(m, "C06.R8"))
     expl = ("Decides the structural clauses of C06: (R1) who-may-call -- no call path from the parse/print/read entry points to a "
             "process-terminating call (resolved call graph incl. grammar dispatch); (R2) every fparser exception class raised as a "
